@@ -598,9 +598,12 @@ func (sc *scen) modifyEdges() bool {
 		{b1, "M", sc.sd, stepT{bs("300000000000000000"), 1, false}, []stepT{{half, 1, true}, {one, 1, true}, {one, 2, false}}},
 		{b2, "W", sc.pd, stepT{half, 50, false}, []stepT{{bs("600000000000000000"), 50, true}, {one, 50, true}, {one, 51, false}}},
 		{b2, "M", sc.sd, stepT{third, 3, false}, []stepT{{third, 3, false} /* equal: rejected */, {third, 4, false}, {third, 6, true}}},
+		// a higher price with a LOWER amount whose reservation does not fall (60 ≥ 50, 50 = 50): rejected,
+		// "the amount may not be lowered" is about the amount, not about what is reserved
+		{b1, "M", sc.sd, stepT{half, 100, false}, []stepT{{one, 60, false}, {one, 50, false}, {one, 100, false}}},
 	}
 	g.r.Shuffle(len(chains), func(i, j int) { chains[i], chains[j] = chains[j], chains[i] })
-	for _, c := range chains[:g.between(2, 4)] {
+	for _, c := range chains[:g.between(2, 5)] {
 		if !sc.place(c.u, id, c.typ, c.first.price, c.denom, bi(c.first.amt)) {
 			continue
 		}
